@@ -53,7 +53,13 @@ class Connection:
     else:
       self._check_segment_references(gfa)
       self._gfa = gfa
-      self._initialize_references()
+      try:
+        self._initialize_references()
+      except:
+        # the line is not a line of the Gfa (e.g. the positions of an edge
+        # are not consistent): it shall not claim to be connected to it
+        self._gfa = None
+        raise
       self._gfa._register_line(self)
       return None
 
